@@ -10,17 +10,6 @@ namespace Mrm
 
 /-! ### `str.isspace` / `str.strip` -/
 
-/-- the 29 code points for which `str.isspace()` is true (checked exhaustively against the
-    interpreter by the C17 check) -/
-def pyIsSpace (c : Char) : Bool :=
-  let n := c.toNat
-  (0x09 ≤ n && n ≤ 0x0D) || (0x1C ≤ n && n ≤ 0x20) || n == 0x85 || n == 0xA0 || n == 0x1680 ||
-  (0x2000 ≤ n && n ≤ 0x200A) || n == 0x2028 || n == 0x2029 || n == 0x202F || n == 0x205F || n == 0x3000
-
-/-- `str.strip()` on a list of characters -/
-def pyStripL (cs : List Char) : List Char :=
-  ((cs.dropWhile pyIsSpace).reverse.dropWhile pyIsSpace).reverse
-
 def pyStrip (s : String) : String := String.ofList (pyStripL s.toList)
 
 /-- `_is_technical_note` (moselements.py l.49-59) on the stripped text -/
